@@ -1316,6 +1316,12 @@ META = {
                   'is [[1,0],[-c,c]] resp. [[0,1],[-c,c]] and the computed coefficient pair reproduces value and first time derivative whatever the other '
                   'coefficients (initial_condition_01_reproduces[_right]). On top of C14: Multipatch.compute_dirichlet_bcs, for any order/repetition of '
                   'conditions, returns exactly the glued indices, each once, first value (mp_loop_any_order, mp_bcs_glued, mp_bcs_one_entry_per_class). '
+                  'Round 5: compute_dirichlet_bcs for ANY list of conditions returns every requested dof (of every component) once '
+                  '(dirichlet_bcs_any_list_each_dof_once; an invalid spec fails the call); compute_dirichlet_bc WITH values: every (dof, component) is '
+                  'paired with its own coefficient at index bd[k]+j*NN, nan dropped (dirichlet_bc_scalar_values, dirichlet_bc_vector_blocked_values, '
+                  'combine_bcs_nodup_is_sort, drop_nans_*); initial conditions: coefficient (k,s) lands on the dof with time index firstidx+k and the s-th '
+                  'spatial multi-index (initial_condition_alignment, slice_positions_aligned) and on the initial face the space-time spline is the spatial '
+                  'spline with coefficients G0 resp. G1 (initial_condition_spacetime[_right]). 43 theorems; clause-by-clause NOT PROVED account at the end of Props.v. '
                   'PARTIAL: that boundary values interpolate the data (C17) and the space-time lifting of the initial-condition theorem are evaluated on the '
                   'implementation (within 1e-11 relative), not proved.',
     'level_note': 'Trusted: Coq kernel + vm_compute; the hand transcription of assemble.py:346-652,1385-1405 and bspline.py:13-33 into Gallina (validated by the '
